@@ -443,18 +443,20 @@ def lengthOf : Option Value → Option Value
 
 /-! ## Trim (`param/trim.rs`, `attr_fnmatch.rs`) on top of the yash-fnmatch model of C04 -/
 
-/-- `attr_fnmatch::apply_escapes`: an unquoted, non-quoting backslash quotes the next character
-    (the loop looks at the already updated flags of `chars[i]`) -/
-def applyEscapesGo (quotedByPrev : Bool) : List AttrChar → List AttrChar
+/-- `attr_fnmatch::apply_escapes` (as of fix 9da0f0e), left to right: an unquoted, non-quoting backslash that some
+    NON-QUOTING character follows becomes a quoting character, and the next non-quoting character becomes quoted — quoting
+    characters in between are stepped over untouched (`quoteThis`: a backslash before is waiting for its character);
+    a backslash followed by quoting characters only stays what it was.  Same recursion as the C04 model
+    (`Fnmatch.applyEscapesAux`), on this area's four-field characters. -/
+def applyEscapesGo (quoteThis : Bool) : List AttrChar → List AttrChar
   | [] => []
-  | c :: t =>
-    let c' := if quotedByPrev then { c with isQuoted := true } else c
-    match t with
-    | [] => [c']
-    | _ :: _ =>
-      if c'.value == '\\' && !c'.isQuoting && !c'.isQuoted then
-        { c' with isQuoting := true } :: applyEscapesGo true t
-      else c' :: applyEscapesGo false t
+  | a :: t =>
+    if a.isQuoting then a :: applyEscapesGo quoteThis t
+    else
+      let a' : AttrChar := if quoteThis then { a with isQuoted := true } else a
+      if a'.value = '\\' ∧ a'.isQuoted = false ∧ t.any (fun c => !c.isQuoting) = true then
+        { a' with isQuoting := true } :: applyEscapesGo true t
+      else a' :: applyEscapesGo false t
 
 def applyEscapes (cs : List AttrChar) : List AttrChar := applyEscapesGo false cs
 
@@ -560,7 +562,9 @@ def tildeBody (env : Env) (name : List Char) : List Char :=
 
 /-- `strip_suffix('/')` when the tilde prefix is followed by a slash -/
 def tildeStrip (chars : List Char) (slash : Bool) : List Char :=
-  if slash && chars.getLast? == some Generated.ExpansionTables.tildeSlash then chars.dropLast else chars
+  match Generated.ExpansionTables.tildeSlash with
+  | some sl => if slash && chars.getLast? == some sl then chars.dropLast else chars
+  | none => chars
 
 /-- `tilde::finish`: one trailing slash dropped before a following slash; the characters are results of a
     hard expansion (never split, never a pattern); an empty result becomes a dummy quoting character -/
